@@ -240,7 +240,7 @@ def gen_ts(rng, n_items=25, js=False, forms=True):
     b.add("// Generated literals module" + NON_ASCII)
     for _ in range(rng.randint(0, 3)):
         t, v = ts_literal(rng, used, forms)
-        b.add(rng.choice(["const %s = %s;", "const %s = -%s;", "export const %s = %s;"] + ([] if js else ["const %s: number = %s;", "const %s = %s as const;"]))
+        b.add(rng.choice(["const %s = %s;", "const %s = -%s;", "export const %s = %s;", "const %s = 1 * %s;", "const %s = 2 * 3 * %s;", "const %s = (%s + 1) * 2;"] + ([] if js else ["const %s: number = %s;", "const %s = %s as const;"]))
               % (rng.choice(["LIMIT_%d", "_PRIVATE_LIMIT_%d", "MAX2_RETRIES_%d"]) % nx(), t), v, t, "const")
     if not js and rng.random() < 0.7:
         b.add("enum Level_%d {" % nx())
@@ -349,7 +349,7 @@ def gen_rs(rng, n_items=25, forms=True):
     for _ in range(rng.randint(0, 3)):
         t, v = rs_literal(rng, used, False)
         kind = rng.choice(["const", "static"])
-        b.add("%s%s %s: i64 = %s%s;" % (rng.choice(["", "pub ", "pub(crate) "]), kind, rng.choice(["LIMIT_%d", "_PRIVATE_LIMIT_%d", "MAX2_RETRIES_%d"]) % nx(), rng.choice(["", "", "-"]), t), v, t, "const")
+        b.add("%s%s %s: i64 = %s%s;" % (rng.choice(["", "pub ", "pub(crate) "]), kind, rng.choice(["LIMIT_%d", "_PRIVATE_LIMIT_%d", "MAX2_RETRIES_%d"]) % nx(), rng.choice(["", "", "-", "60 * ", "2 * 3 * "]), t), v, t, "const")
     b.add("")
     b.add("fn func_main(a: i64, items: &[i64]) -> i64 {")
     ind = "    "
@@ -378,6 +378,17 @@ def gen_rs(rng, n_items=25, forms=True):
     t, v = rs_literal(rng, used, False)
     b.add("%s%s" % (ind, t), v, t, "plain")
     b.add("}")
+    if rng.random() < 0.5:
+        # production code whose attribute merely mentions test; a decimal literal written with leading zeros (0755 is 755 in Rust)
+        b.add("")
+        b.add(rng.choice(["#[cfg_attr(test, allow(dead_code))]", "#[cfg_attr(test, derive(Debug))]", "#[cfg(not(test))]", "#[doc = \"test helper, used in production\"]"]))
+        b.add("fn production_%d() -> i64 {" % nx())
+        t, v = rs_literal(rng, used, False)
+        b.add("    let kept = %s;" % t, v, t, "plain")
+        v2 = _fresh(rng, used)
+        b.add("    let mode = 0%d;" % v2, v2, "0%d" % v2, "plain")
+        b.add("    kept + mode")
+        b.add("}")
     if rng.random() < 0.7:
         b.add("")
         b.add("#[test]")
